@@ -5,6 +5,7 @@ import (
 	"compress/gzip"
 	"compress/zlib"
 	"io"
+	"strings"
 	"sync"
 
 	restful "github.com/emicklei/go-restful/v3"
@@ -18,6 +19,11 @@ type Ledger struct {
 	acq, rel    int
 	bad         int
 	outstanding map[interface{}]bool
+	// Keep: released objects are handed back as they are (as the library's own providers do), so that
+	// what a late use does to the response that is still attached stays visible (stray bytes after the
+	// stream); otherwise they are pointed at a throw-away sink first, so that a late use is LOST
+	// instead of silently working. Configurations take turns.
+	Keep bool
 }
 
 func NewLedger(inner restful.CompressorProvider) *Ledger {
@@ -67,7 +73,9 @@ func (l *Ledger) AcquireGzipWriter() *gzip.Writer {
 // Close, a body read through a released reader) is lost instead of silently working.
 func (l *Ledger) ReleaseGzipWriter(w *gzip.Writer) {
 	l.in(w)
-	w.Reset(io.Discard)
+	if !l.Keep {
+		w.Reset(io.Discard)
+	}
 	l.inner.ReleaseGzipWriter(w)
 }
 func (l *Ledger) AcquireGzipReader() *gzip.Reader {
@@ -77,7 +85,9 @@ func (l *Ledger) AcquireGzipReader() *gzip.Reader {
 }
 func (l *Ledger) ReleaseGzipReader(r *gzip.Reader) {
 	l.in(r)
-	r.Reset(bytes.NewReader(nil))
+	if !l.Keep {
+		r.Reset(bytes.NewReader(nil))
+	}
 	l.inner.ReleaseGzipReader(r)
 }
 func (l *Ledger) AcquireZlibWriter() *zlib.Writer {
@@ -87,14 +97,17 @@ func (l *Ledger) AcquireZlibWriter() *zlib.Writer {
 }
 func (l *Ledger) ReleaseZlibWriter(w *zlib.Writer) {
 	l.in(w)
-	w.Reset(io.Discard)
+	if !l.Keep {
+		w.Reset(io.Discard)
+	}
 	l.inner.ReleaseZlibWriter(w)
 }
 
 // Install makes a fresh ledger around the named provider the package's current provider.
 func Install(provider string) *Ledger {
 	var inner restful.CompressorProvider
-	switch provider {
+	keep := strings.HasSuffix(provider, "+keep")
+	switch strings.TrimSuffix(provider, "+keep") {
 	case "bounded0":
 		inner = restful.NewBoundedCachedCompressors(0, 0)
 	case "bounded1":
@@ -105,6 +118,7 @@ func Install(provider string) *Ledger {
 		inner = restful.NewSyncPoolCompessors()
 	}
 	l := NewLedger(inner)
+	l.Keep = keep
 	restful.SetCompressorProvider(l)
 	return l
 }
